@@ -14,6 +14,7 @@ import (
 	"runtime/debug"
 	"sort"
 	"strings"
+	"syscall"
 	"testing"
 
 	"pgregory.net/rapid"
@@ -27,6 +28,10 @@ import (
 )
 
 func TestMain(m *testing.M) {
+	if os.Getenv("VERIF_C13_CHILD") == "alloc" {
+		childAlloc()
+		return
+	}
 	if os.Getenv("VERIF_C13_CHILD") != "" {
 		childDeep()
 		return
@@ -849,6 +854,10 @@ func TestC13Bytes(t *testing.T) {
 				b = append(b, strings.Repeat("e", depth+1)...)
 			}
 		}
+		if stats.Excl("c13-bencode-string-alloc") && hugeString(b) {
+			stats.Excluded("c13-bencode-string-alloc")
+			return
+		}
 		if f := checkBytes(b); f != "" {
 			t.Fatalf("%s\ninput %q", f, trunc(b))
 		}
@@ -1117,6 +1126,53 @@ func TestReg_c13_bencode_stack(t *testing.T) {
 	}
 }
 
+// third-party: zeebo/bencode allocates the declared length of a string before
+// reading it.  With 1 GiB of address space (a small device, a container) the
+// 40-byte file below ends the process.
+const allocInput = "d4:infod4:name2147483647:abce"
+
+func childAlloc() {
+	lim := syscall.Rlimit{Cur: 1 << 30, Max: 1 << 30}
+	if err := syscall.Setrlimit(syscall.RLIMIT_AS, &lim); err != nil {
+		fmt.Println("child: setrlimit:", err)
+		os.Exit(0)
+	}
+	_, err := tor.ReadTorrent("", bytes.NewReader([]byte(allocInput)))
+	fmt.Println("child survived:", err)
+	os.Exit(0)
+}
+
+func TestReg_c13_bencode_string_alloc(t *testing.T) {
+	cmd := exec.Command(os.Args[0], "-test.run", "^$")
+	cmd.Env = append(os.Environ(), "VERIF_C13_CHILD=alloc", "VERIF_STATS_OUT=")
+	out, err := cmd.CombinedOutput()
+	if err != nil {
+		s := string(out)
+		if i := strings.Index(s, "\n\n"); i > 0 {
+			s = s[:i]
+		}
+		t.Fatalf("ReadTorrent on %q with 1 GiB of address space ended the process: %v\n%s", allocInput, err, trunc([]byte(s)))
+	}
+}
+
+// hugeString reports whether b contains a decimal number of 7 digits or more
+// followed by a colon: a bencoded string header declaring a length no input
+// of this size can honour (inputs are capped at 256 KiB).
+func hugeString(b []byte) bool {
+	run := 0
+	for _, c := range b {
+		switch {
+		case c >= '0' && c <= '9':
+			run++
+		case c == ':' && run >= 7:
+			return true
+		default:
+			run = 0
+		}
+	}
+	return false
+}
+
 // ---------------------------------------------------------------- native fuzz
 
 func FuzzReadTorrent(f *testing.F) {
@@ -1149,6 +1205,10 @@ func FuzzReadTorrent(f *testing.F) {
 			return
 		}
 		if stats.Excl("c13-piece-length-0") && (bytes.Contains(b, []byte("12:piece lengthi0e")) || !bytes.Contains(b, []byte("12:piece length"))) {
+			return
+		}
+		if stats.Excl("c13-bencode-string-alloc") && hugeString(b) {
+			stats.Excluded("c13-bencode-string-alloc")
 			return
 		}
 		if f := checkBytes(b); f != "" {
